@@ -144,5 +144,5 @@ range_table!(
     (u8, u16, [1, 2, 3, 4, 5, 6, 7, 8]), (u8, u32, [1, 4, 8]),
     (u16, u32, [1, 4, 8, 12, 16]), (u16, u64, [1, 8, 12, 16]),
     (u32, u64, [1, 8, 12, 16, 24, 32]), (u32, u128, [1, 16, 24, 32]),
-    (u64, u128, [1, 16, 24, 32])
+    (u64, u128, [1, 16, 24, 32, 40, 48]), (u8, u128, [1, 4, 8]), (u16, u128, [1, 8, 16]), (u8, u64, [1, 4, 8])
 );
